@@ -16,9 +16,12 @@ RULE = ('cases = random flat machines (2 of 4 cases: model_attribute state/st/mo
         'model_override on/off, ignore_invalid_triggers on/off, string or Enum states, 0-4 states, 0-4 transitions with '
         'wildcard / list sources, reflexive / internal / named destinations and constant conditions, 0-2 models whose '
         'classes / instances already define 0-5 attributes named like helpers (is_*, to_*, may_*, event names, trigger) '
-        'with callable or None values) followed by 2-8 operations (helper / event-method / trigger(name) calls, '
+        'with callable, None, or defined-but-falsy values (False, 0, "", [], {}, 0.0, ())) followed by 2-8 operations (helper / event-method / trigger(name) calls, '
         'add_states, add_transition, remove_transition, add_model); and hierarchical machines (separators _ . /, nested '
-        'and parallel states, string or Enum states, 1-2 models with clashing attributes, configurations set through '
+        'and parallel states, string states or (2 of 5) Enum states with one Enum class per group of siblings and the '
+        'SAME member names A, B, C on every level, references given alternately as member and as path, every '
+        'to_<state> helper called and required to end in that state, get_transitions asked by member and by name, '
+        '1-2 models with clashing attributes, configurations set through '
         'set_state and add_model; 1 of 4 cases) and hierarchical reconfiguration histories (1 of 4 cases: events declared '
         'at the machine, inside state dicts through the transitions key, and through embedded machines, then 3-9 '
         'operations add_transition / remove_transition with and without source / dest filters / add_states / add_model '
@@ -64,7 +67,7 @@ def to_name(cfg, s):
 
 # ------------------------------------------------------------------ encoding (flat)
 def enc_val(v):
-    return [0, v[1]] if v[0] == 'pre' else [1]
+    return [0, v[1]] if v[0] == 'pre' else ([4, v[1]] if v[0] == 'own' else [1])
 
 
 def enc_obj(o):
@@ -130,12 +133,16 @@ class FlatGen(object):
             for n in picks:
                 self.pre += 1
                 x = r.random()
-                if x < 0.55:
+                if x < 0.4:
                     cls.append([n, ['pre', self.pre]])
+                elif x < 0.55:
+                    cls.append([n, ['own', self.pre]])      # defined but not callable, falsy: False, 0, '', [], {}
                 elif x < 0.7:
                     cls.append([n, ['none']])
-                else:
+                elif x < 0.87:
                     inst.append([n, ['pre', self.pre]])
+                else:
+                    inst.append([n, ['own', self.pre]])
         return dict(id=self.mid, cls=cls, inst=inst)
 
     def addt(self, states, events, all_states):
@@ -293,6 +300,11 @@ def make_method(k):
     return user_method
 
 
+def falsy_value(k):
+    """a defined, falsy, non-None value (a flag, a counter, an empty container)"""
+    return [False, 0, '', [], {}, 0.0, ()][k % 7]
+
+
 class Objects(object):
     """the Python objects of a case's model pool"""
     def __init__(self):
@@ -308,11 +320,19 @@ class Objects(object):
             if v[0] == 'pre':
                 ns[n] = make_method(v[1])
                 orig[n] = ('cls', ns[n], v[1])
+            elif v[0] == 'own':
+                ns[n] = falsy_value(v[1])
+                orig[n] = ('own', ns[n], v[1])
             else:
                 ns[n] = None
         klass = type('Model%d' % desc['id'], (object,), ns)
         obj = klass()
         for n, v in desc['inst']:
+            if v[0] == 'own':
+                fv = falsy_value(v[1])
+                setattr(obj, n, fv)
+                orig[n] = ('own', fv, v[1])
+                continue
             pc = PreCallable(v[1])
             setattr(obj, n, pc)
             orig[n] = ('inst', pc, v[1])
@@ -342,6 +362,8 @@ def kind_of(objs, mid, model, name, attr):
             return [0, o[2]]
         if o[0] == 'inst' and v is o[1]:
             return [0, o[2]]
+        if o[0] == 'own' and (v is o[1] or (type(v) is type(o[1]) and v == o[1] and not callable(v))):
+            return [4, o[2]]
     if name == attr:
         sn = state_name(v)
         return [3, sx_str(sn)] if isinstance(sn, str) else [8]
@@ -591,7 +613,8 @@ def in_envelope(case):
 
 
 def _pre_present(desc):
-    return {n: v[1] for n, v in desc['cls'] + desc['inst'] if v[0] == 'pre'}
+    """attributes the model defines (hasattr and not None, whatever the truth value) -> their kind code"""
+    return {n: ([0, v[1]] if v[0] == 'pre' else [4, v[1]]) for n, v in desc['cls'] + desc['inst'] if v[0] in ('pre', 'own')}
 
 
 def kf_remove_class(case):
@@ -669,7 +692,7 @@ def oracle(case, obs):
                 return (n in pres) == over
             # pre-existing attributes survive (without override); with override only those are replaced
             for n, k in pres.items():
-                if not over and kinds.get(n) != [0, k]:
+                if not over and kinds.get(n) != k:
                     return 'step %d model %d: pre-existing attribute %s was overwritten or removed' % (idx, mid, n)
             if over:
                 for n, k in kinds.items():
@@ -731,7 +754,7 @@ def nontrivial(case, obs):
     descs = [op[1] for op in case['ops'] if op[0] == 'model']
     last = steps[-1][1] if len(steps) > 1 else steps[0]
     for mo in last[2]:
-        if any(k[0] in (0, 1) for _, k in mo[2]):
+        if any(k[0] in (0, 1, 4) for _, k in mo[2]):
             return True
     prev = steps[0]
     for r, mach in steps[1:]:
@@ -774,6 +797,7 @@ def stats(case, obs, dist):
     bump('events_total', len(last[1]))
     for mo in last[2]:
         bump('attrs_pre', sum(1 for _, k in mo[2] if k[0] == 0))
+        bump('attrs_own_falsy', sum(1 for _, k in mo[2] if k[0] == 4))
         bump('attrs_helper', sum(1 for _, k in mo[2] if k[0] == 2))
     if kf_remove_class(case):
         bump('kf_class_remove_clash')
